@@ -1,3 +1,4 @@
+import Rangers.Model.Decimal
 /-
 Model of the native-token ledger of go-rangers (property C06). Core Lean only.
 
@@ -5,7 +6,7 @@ What is transcribed (file:function of /repo in brackets):
  * the balance slot primitives            [storage/account/accountdb_tuntun.go: AddFT/SubFT/SetFT, ERC-20 branch,
                                            which is the only branch `SYSTEM-RPG` ever takes: GetERC20Binding
                                            answers `found` unconditionally for BLANCE_NAME]
- * amount strings                         [utility/data_convert.go: StrToBigInt] on the grammar of big.Float.Parse
+ * amount strings                         [utility/data_convert.go: StrToBigInt] = C18's Model/Decimal.lean (exact big.Float)
  * `transferBalance`, `ChangeAssets`      [service/game.go]
  * `ProcessFee`                           [service/transaction_pool.go]
  * contract executor                      [executor/contract_executor.go: decodeContractData, preCheckContractFee,
@@ -71,75 +72,21 @@ def isDigit (c : Char) : Bool := '0' ≤ c && c ≤ '9'
 
 def digitsVal (cs : List Char) : Nat := cs.foldl (fun acc c => acc * 10 + (c.toNat - 48)) 0
 
-/-- Result of `big.ParseFloat(s, 10, 512, AwayFromZero)` as far as `StrToBigInt` can see it. -/
-inductive Parsed where
-  | err                                         -- Parse returned an error
-  | inf                                         -- ±Inf  (then `target.Int(result)` leaves `result` 0)
-  | num (neg : Bool) (mant : Nat) (exp10 : Int) -- ± mant · 10^exp10, exact
-  | outside                                     -- syntactically a number but outside the modelled domain
-  deriving Repr, DecidableEq
-
-/-- Bounds of the modelled domain: at most 40 mantissa digits, decimal exponent of at most 3 digits and
-    magnitude ≤ 40, no binary (`p`) exponent. Inside it the two 512-bit roundings of `strToBigInt` cannot
-    change the truncated integer (argued in design/C06.md; proved for the decimal core by C18). -/
-def maxDigits : Nat := 40
-def maxExp : Nat := 40
-
-def splitDigits (cs : List Char) : List Char × List Char := (cs.takeWhile isDigit, cs.dropWhile isDigit)
-
-/-- exponent part after the mantissa: `[eE][+-]?digits` then end of string. -/
-def parseExp (neg : Bool) (mant : Nat) (ndig : Nat) (fcount : Nat) (rest : List Char) : Parsed :=
-  let fin (e : Int) : Parsed :=
-    if ndig > maxDigits then .outside else .num neg mant (e - fcount)
-  match rest with
-  | [] => fin 0
-  | c :: r =>
-    if c = 'e' || c = 'E' then
-      let (eneg, r1) := match r with
-        | '-' :: t => (true, t)
-        | '+' :: t => (false, t)
-        | t => (false, t)
-      let (ds, r2) := splitDigits r1
-      if ds.isEmpty then .err
-      else if !r2.isEmpty then .err
-      else if ds.length > 3 || digitsVal ds > maxExp then .outside
-      else fin (if eneg then - (digitsVal ds : Int) else (digitsVal ds : Int))
-    else if c = 'p' || c = 'P' then .outside
-    else .err
-
-def parseFloat (s : String) : Parsed :=
-  if s = "Inf" || s = "inf" || s = "+Inf" || s = "+inf" || s = "-Inf" || s = "-inf" then .inf else
-  let cs := s.toList
-  let (neg, cs) := match cs with
-    | '-' :: t => (true, t)
-    | '+' :: t => (false, t)
-    | t => (false, t)
-  let (ip, r) := splitDigits cs
-  let (fp, r, dot) := match r with
-    | '.' :: t => let (f, r') := splitDigits t; (f, r', true)
-    | t => ([], t, false)
-  let _ := dot
-  if ip.isEmpty && fp.isEmpty then .err
-  else parseExp neg (digitsVal (ip ++ fp)) (ip.length + fp.length) fp.length r
-
-/-- `utility.StrToBigInt`: `none` = error; empty string is 0; ±Inf is 0; otherwise the value times 10^18,
-    truncated toward zero. `outside` is reported separately so the driver can answer `unmodelled`. -/
+/-- Result of `utility.StrToBigInt`: an error, or the `big.Int` value. -/
 inductive Amount where
   | err
-  | outside
   | val (v : Int)
   deriving Repr, DecidableEq
 
+/-- `utility.StrToBigInt` with the exact `big.ParseFloat(s, 10, 512, AwayFromZero)` / `Float.Mul` / `Float.Int`
+    semantics of C18's model (`Rangers.Decimal.StrToBigInt`: every string, binary `p` exponents, exponent
+    overflow, the two 512-bit roundings). `panic` (ErrNaN) is unreachable (`Props.C18.strToBigInt_never_panics`)
+    and mapped to `err`. -/
 def strToBigInt (s : String) : Amount :=
-  if s.isEmpty then .val 0 else
-  match parseFloat s with
+  match Rangers.Decimal.StrToBigInt s.toList with
+  | .ok v => .val v
   | .err => .err
-  | .outside => .outside
-  | .inf => .val 0
-  | .num neg m e =>
-    let e18 : Int := e + 18
-    let mag : Nat := if e18 ≥ 0 then m * 10 ^ e18.toNat else m / 10 ^ (-e18).toNat
-    .val (if neg then - (mag : Int) else (mag : Int))
+  | .panic => .err
 
 /-! ### Constants (tied to the source by `Generated/LedgerFacts.lean`, see Props/C06) -/
 
@@ -165,7 +112,6 @@ def wei : Nat := 1000000000000000000
 def transferBalance (b : Bal) (src tgt : Addr) (amount : Amount) : Option Bal :=
   match amount with
   | .err => none
-  | .outside => none
   | .val v =>
     if v < 0 then none
     else if ((get b src : Nat) : Int) < v then none
@@ -351,7 +297,6 @@ def contractBefore (b : Bal) (t : ContractTx) : (Status × Bal) ⊕ (Bal × Nat 
     | some raw =>
       match strToBigInt t.value with
       | .err => .inl (.failed, b1)
-      | .outside => .inl (.failed, b1)
       | .val v =>
         -- preCheckContractFee: balance < gasLimit*price + value  →  ErrInsufficientFunds
         if ((get b1 t.src : Nat) : Int) < ((raw * gasPrice : Nat) : Int) + v then .inl (.failed, b1)
